@@ -49,10 +49,10 @@ ASSUMPTIONS = [
 MIN_EVENTS = {
     'quick': {'stream_checks': 400, 'ledger_data_frames': 20000, 'ledger_credit_octets_received': 800,
               'fcs_checked': 20000, 'state_checks': 400, 'slc_runs': 120, 'slc_agreement_checks': 600,
-              'at_lines_checked': 1500, 'pn_exchanges': 600},
+              'at_lines_checked': 1500, 'pn_exchanges': 600, 'dlc_invariant_evals': 50000},
     'thorough': {'stream_checks': 8000, 'ledger_data_frames': 600000, 'ledger_credit_octets_received': 20000,
                  'fcs_checked': 600000, 'state_checks': 8000, 'slc_runs': 2000, 'slc_agreement_checks': 12000,
-                 'at_lines_checked': 30000, 'pn_exchanges': 12000},
+                 'at_lines_checked': 30000, 'pn_exchanges': 12000, 'dlc_invariant_evals': 1000000},
 }
 CASE_TIMEOUT = 600
 
@@ -60,8 +60,32 @@ FRAME_SIZES = [23, 24, 127, 128, 129, 1000, 32767]
 L2_MTUS = [48, 132, 2048, 65535]
 
 
+INVARIANT = {'evals': 0, 'hits': []}
+
+
 def init_shard(tier, seed):
+    """Class invariant on every rfcomm.DLC of every workload: tx_credits never negative after
+    process_tx (the transmit loop) or on_uih_frame (the receive path) returns."""
     logging.disable(logging.CRITICAL)
+    from bumble import rfcomm
+
+    def guard(name):
+        inner = getattr(rfcomm.DLC, name)
+
+        def wrapped(self, *a, **kw):
+            try:
+                return inner(self, *a, **kw)
+            finally:
+                INVARIANT['evals'] += 1
+                if (self.tx_credits < 0 or self.rx_credits < 0) and len(INVARIANT['hits']) < 5:
+                    INVARIANT['hits'].append(f'after DLC.{name}: tx_credits={self.tx_credits} rx_credits={self.rx_credits} '
+                                             f'on DLCI {self.dlci}')
+        wrapped.__wrapped__ = inner
+        setattr(rfcomm.DLC, name, wrapped)
+
+    if not hasattr(rfcomm.DLC.process_tx, '__wrapped__'):
+        guard('process_tx')
+        guard('on_uih_frame')
 
 
 def plan(tier, seed):
@@ -70,9 +94,9 @@ def plan(tier, seed):
     base = seed * 1000003
     for i in range(160 if q else 2400):
         cases.append({'kind': 'xfer', 'seed': base + i, 'idx': i, 'tier': tier})
-    for i in range(96 if q else 1200):
+    for i in range(72 if q else 1200):
         cases.append({'kind': 'life', 'seed': base + i, 'idx': i, 'tier': tier})
-    for i in range(192 if q else 2560):
+    for i in range(128 if q else 2560):
         cases.append({'kind': 'slc', 'seed': base + i, 'idx': i, 'tier': tier})
     for i in range(64 if q else 800):
         cases.append({'kind': 'agraw', 'seed': base + i, 'idx': i, 'tier': tier})
@@ -274,7 +298,7 @@ async def xfer(case, r: R):
             r.bad('rfcomm/setup/open-dlc-hang', f'open_dlc({ch}) pending at T_v; params {params[j]} mtus {cm}/{sm}')
             return
     compare_state(r, s, f'opening {ndlc} DLCs', 'after-open')
-    big = (case['tier'] != 'quick' and rng.random() < 0.3) or (case['tier'] == 'quick' and idx % 8 == 0)
+    big = (case['tier'] != 'quick' and rng.random() < 0.3) or (case['tier'] == 'quick' and idx % 12 == 0)
     cap = 100000 if big else rng.choice([3000, 6000])
     # effective information size per direction, from the parameters (not from bumble)
     plans = []
@@ -366,7 +390,6 @@ async def xfer(case, r: R):
     try:
         await vloop.vwait(s.client.shutdown())
         await rg.quiesce()
-        s_mux = s.mux
         compare_state(r, s, 'Client.shutdown with DLCs open', 'after-shutdown')
     except vloop.Hang:
         r.bad('rfcomm/teardown/shutdown-hang', 'Client.shutdown pending at T_v')
@@ -861,7 +884,8 @@ async def agraw(case, r: R):
     if warm:   # a nominal SLC first, so that handlers run in their expected state
         script = [(l, l.split('=')[0].split('?')[0], 'nominal') for l in
                   ('AT+BRSF=927', 'AT+CIND=?', 'AT+CIND?', 'AT+CMER=3,0,0,1')] + script
-    rng.shuffle(script) if not warm and rng.random() < 0.5 else None
+    if not warm and rng.random() < 0.5:
+        rng.shuffle(script)
     transcript = []
 
     async def send(line):
@@ -1020,7 +1044,14 @@ KINDS = {'xfer': xfer, 'life': life, 'slc': slc, 'agraw': agraw, 'hfraw': hfraw}
 
 async def run_case(case, r: R):
     case['_hang_key'] = f'hang/{case["kind"]}'
-    await KINDS[case['kind']](case, r)
+    INVARIANT['evals'] = 0
+    del INVARIANT['hits'][:]
+    try:
+        await KINDS[case['kind']](case, r)
+    finally:
+        r.ev('dlc_invariant_evals', INVARIANT['evals'])
+        for h in INVARIANT['hits']:
+            r.bad('rfcomm/invariant/credit-counter-negative', h)
 
 
 LEVEL_TEXT = ('Stream equality at every DLC sink, an independent RFCOMM wire checker (own frame parser and CRC-8: FCS, length '
